@@ -288,6 +288,22 @@ class OpGen(object):
                 sels.append(OField(x.name, x.parent, x.alias, x.args,
                                    [], self.selection_set(S.unwrap(f.type), depth + 1)))
                 self.doc.features.add("merged-key")
+        # the same object-typed field once more under type conditions: which occurrences merge then
+        # depends on the concrete type of each object
+        if st.kind == "interface" and self.cur_frags is not None and depth < self.max_depth and self.chance(0.6):
+            composite_fields = [f for f in fields if s.kind(S.unwrap(f.type)) in ("object", "interface", "union")]
+            x = rng.choice(objs) if objs else None
+            if x is None and composite_fields:
+                x = self.make_field(rng.choice(composite_fields), scope, depth)
+                sels.append(x)
+            f = st.field(x.name) if x is not None else None
+            poss = list(s.possible_types(scope))
+            rng.shuffle(poss)
+            for tname in poss[:2]:
+                if f is not None and s.types[tname].field(x.name) is not None:
+                    sels.append(OInline(tname, [OField(x.name, tname, x.alias, x.args, [],
+                                                        self.selection_set(S.unwrap(f.type), depth + 1))]))
+                    self.doc.features.add("merged-key-under-type-conditions")
         if not sels:
             sels.append(OField("__typename", scope))
         return sels
